@@ -82,8 +82,9 @@ theorem C19_no_query_returns (f : Field) (r c : Nat) :
 
 /-! ### Histories: set … clear … set others -/
 
-/-- Whatever history built the field (any timestamps, any other columns, earlier clears), after
-`ClearBit(r, c)` and any further writes that do not set (r, c) again, no view holds (r, c). -/
+/-- Whatever history built the field (`SetBit` and `Import` with any timestamps, clear-imports
+that only touch the standard view, views created for a peer, any other columns, earlier clears),
+after `ClearBit(r, c)` and any further writes that do not set (r, c) again, no view holds (r, c). -/
 theorem C19_cleared_until_set_again (f0 : Field) (before after : List Op) (r c : Nat)
     (hafter : ∀ op ∈ after, op.touches r c = false) :
     ∀ v ∈ (after.foldl apply (clearBit (before.foldl apply f0) r c).1).views, (r, c) ∉ v.bits := by
@@ -103,6 +104,26 @@ theorem C19_cleared_until_set_again (f0 : Field) (before after : List Op) (r c :
         intro e; cases e; simp at this
       exact setBit_other hne h0
     | clear r' c' => exact clear_other h0
+    | imp bits cl =>
+      simp only [apply]
+      cases hg : g.importBits bits cl with
+      | none => simpa using h0
+      | some g' =>
+        simp only [Option.getD_some]
+        have hne : cl = true ∨ ∀ b ∈ bits, (b.1, b.2.1) ≠ (r, c) := by
+          have ht := hafter (.imp bits cl) (by simp)
+          cases cl
+          · right
+            simp only [Op.touches, Bool.not_false, Bool.true_and, List.any_eq_false, Bool.and_eq_true,
+              beq_iff_eq, not_and] at ht
+            intro b hb e
+            cases b with
+            | mk b1 b2 =>
+              simp only [Prod.mk.injEq] at e
+              exact ht (b1, b2) hb e.1 e.2
+          · left; rfl
+        exact importBits_other hne h0 hg
+    | mkview n => exact mkView_other h0
 
 /-! ### The comparator of the old code is a strict total order -/
 
